@@ -263,7 +263,17 @@ const CONFIG_REJECTIONS: &[&str] = &[
     "futures_crate_path should be only provided for `async` `join!`",
 ];
 pub fn expand(text: &str, cfg: &str) -> Class {
-    let parsed = catch_unwind(AssertUnwindSafe(|| syn::parse_str::<JoinInputDefault>(text)));
+    // `__g!( .. )` in a case text stands for a None-delimited group (an operand forwarded as a macro_rules fragment)
+    let parsed = catch_unwind(AssertUnwindSafe(|| {
+        if text.contains("__g") {
+            match text.parse::<TokenStream>() {
+                Ok(ts) => syn::parse2::<JoinInputDefault>(regroup(ts)),
+                Err(_) => syn::parse_str::<JoinInputDefault>(text),
+            }
+        } else {
+            syn::parse_str::<JoinInputDefault>(text)
+        }
+    }));
     let j = match parsed {
         Err(e) => return Class::Panic(format!("parser: {}", panic_text(e))),
         Ok(Err(e)) => return Class::Reject(e.to_string(), e.to_compile_error().to_string()),
@@ -282,11 +292,51 @@ pub fn expand(text: &str, cfg: &str) -> Class {
             let s = out.to_string();
             match syn::parse2::<syn::Expr>(out) {
                 Ok(_) => Class::Ok(s),
-                Err(e) => Class::BadOutput(format!("{} :: {}", e, s.chars().take(300).collect::<String>())),
+                Err(e) => {
+                    let m = format!("{} :: {}", e, s.chars().take(300).collect::<String>());
+                    if has_type_ascription(&j) {
+                        // an operand written with syn 1's legacy type-ascription syntax (`expr: Type`): no compiler accepts it,
+                        // so no expansion of this input can be a valid expression, whatever the macro does
+                        Class::BadOutput(format!("LEGACY-ASCRIPTION {}", m))
+                    } else {
+                        Class::BadOutput(m)
+                    }
+                }
             }
         }
     }
 }
+/// Does any operand (or the custom joiner) contain a type-ascription expression `expr: Type`? syn 1.0 still parses that
+/// syntax, rustc does not: such an operand can never be part of a syntactically valid Rust expression.
+fn has_type_ascription(j: &JoinInputDefault) -> bool {
+    use syn::visit::Visit;
+    struct V(bool);
+    impl<'a> Visit<'a> for V {
+        fn visit_expr_type(&mut self, _: &'a syn::ExprType) {
+            self.0 = true;
+        }
+    }
+    let mut v = V(false);
+    for b in &j.branches {
+        for m in b.members() {
+            if let Some(es) = m.expr().inner_exprs() {
+                for e in es {
+                    v.visit_expr(e);
+                }
+            }
+        }
+    }
+    if let Some(h) = &j.handler {
+        v.visit_expr(h.extract_expr());
+    }
+    if let Some(cj) = &j.custom_joiner {
+        if let Ok(e) = syn::parse2::<syn::Expr>(cj.clone()) {
+            v.visit_expr(&e);
+        }
+    }
+    v.0
+}
+
 /// Is `<receiver> . <operand>` a postfix chain hanging off the receiver (method calls, fields, indexing, calls, `?`,
 /// `.await`) — i.e. syntactically a member access — rather than e.g. a cast or binary expression that merely
 /// starts with one?
@@ -557,6 +607,9 @@ pub fn main() {
                             Class::Panic(m) => {
                                 rep.bump("outcome_internal_panic");
                                 rep.viol(id, text, cfg, format!("internal panic instead of a diagnostic: {}", m));
+                            }
+                            Class::BadOutput(m) if m.starts_with("LEGACY-ASCRIPTION") => {
+                                rep.bump("skipped_operand_in_legacy_type_ascription_syntax");
                             }
                             Class::BadOutput(m) => {
                                 rep.bump("outcome_bad_output");
